@@ -124,6 +124,63 @@ func ecdsaSuite[P curves.Point[P, B, S], B algebra.PrimeFieldElement[B], S algeb
 		mk("valid", err)
 	}
 
+	// device W: signatures whose s lies in a small window around the middle of the scalar range (s = (n-1)/2 + off). A random
+	// signature never gets there, so the key is solved from the signing equation: d = (s k - z) / r for a fresh nonce k.
+	for it := 0; it < n; it++ {
+		for off := -2; off <= 3; off++ {
+			msg := make([]byte, 1+rnd.IntN(64))
+			io.ReadFull(prng, msg)
+			digest := hashBytes(hf, msg)
+			z := wc.digestInt(digest)
+			var kb *big.Int
+			var Rp apt
+			for {
+				kS, err := sf.Random(prng)
+				must(err)
+				kb = sBig(kS)
+				Rp = wc.mul(kb, wc.gen())
+				if kb.Sign() != 0 && !Rp.inf && Rp.x.Cmp(wc.N) < 0 && Rp.x.Sign() != 0 {
+					break
+				}
+			}
+			rb := new(big.Int).Set(Rp.x)
+			sb := new(big.Int).Add(half, big.NewInt(int64(off)))
+			db := new(big.Int).Mul(sb, kb)
+			db.Sub(db, z)
+			db.Mul(db, new(big.Int).ModInverse(rb, wc.N))
+			db.Mod(db, wc.N)
+			if db.Sign() == 0 {
+				continue
+			}
+			dS, err := sf.FromBytes(pad32(db))
+			must(err)
+			rS, err := sf.FromBytes(pad32(rb))
+			must(err)
+			sS, err := sf.FromBytes(pad32(sb))
+			must(err)
+			pk, err := ecdsa.NewPublicKey(curve.ScalarBaseMul(dS))
+			must(err)
+			orcQ := wc.mul(db, wc.gen())
+			v := int(Rp.y.Bit(0))
+			sig, err := ecdsa.NewSignature(rS, sS, &v)
+			must(err)
+			c := sig.Clone()
+			c.Normalise()
+			nOff := new(big.Int).Sub(sBig(c.S()), half)
+			nOffV := 99 // sentinel: far from the middle
+			if nOff.IsInt64() && nOff.Int64() >= -8 && nOff.Int64() <= 8 {
+				nOffV = int(nOff.Int64())
+			}
+			rec, err := ecdsa.RecoverPublicKey(suite, sig, msg)
+			emit("ebound", map[string]any{"suite": name, "off": off, "isNorm": sig.IsNormalized(),
+				"accDefault": vfDefault.Verify(sig, pk, msg) == nil, "accStrict": vfStrict.Verify(sig, pk, msg) == nil,
+				"orc": wc.ecdsaVerify(orcQ, digest, rb, sb), "recOK": err == nil && rec.Equal(pk),
+				"nOff": nOffV, "nIsNorm": c.IsNormalized(), "nSameR": c.R().Equal(sig.R()), "nVflip": c.V() != nil && *c.V() == v^1, "nVsame": c.V() != nil && *c.V() == v,
+				"nAccDefault": vfDefault.Verify(c, pk, msg) == nil, "nAccStrict": vfStrict.Verify(c, pk, msg) == nil,
+				"nOrc": wc.ecdsaVerify(orcQ, digest, sBig(c.R()), sBig(c.S()))})
+		}
+	}
+
 	for it := 0; it < n; it++ {
 		sk, key, pkOK := newKey()
 		_, other, _ := newKey()
